@@ -183,6 +183,39 @@ func init() {
 				return []*spec.Message{spec.M("Bad", spec.Msg("m", "Child").Map().Unw(), spec.F("other", "int32")), child()}, nil
 			}},
 		)
+		// the same wrong-field-type rules with the offender in other positions: member of a real oneof, repeated, map
+		inOneof := func(f *spec.Field) *spec.Message {
+			return spec.M("Bad", f.In("pick"), spec.F("other", "int32").In("pick")).WithOneof(&spec.Oneof{Name: "pick"})
+		}
+		out = append(out,
+			Misuse{Rule: "nullable_on_oneof_scalar_member", JSONRule: true, Offenders: []string{"Bad", "val"}, Build: func() ([]*spec.Message, []*spec.Enum) {
+				return []*spec.Message{inOneof(spec.F("val", "string").Null())}, nil
+			}},
+			Misuse{Rule: "nullable_on_oneof_message_member", JSONRule: true, Offenders: []string{"Bad", "val"}, Build: func() ([]*spec.Message, []*spec.Enum) {
+				return []*spec.Message{inOneof(spec.Msg("val", "Child").Null()), child()}, nil
+			}},
+			Misuse{Rule: "empty_behavior_on_oneof_scalar_member", JSONRule: true, Offenders: []string{"Bad", "val"}, Build: func() ([]*spec.Message, []*spec.Enum) {
+				return []*spec.Message{inOneof(spec.F("val", "string").Empty(spec.EmptyNull))}, nil
+			}},
+			Misuse{Rule: "empty_behavior_on_map_of_message", JSONRule: true, Offenders: []string{"Bad", "val"}, Build: func() ([]*spec.Message, []*spec.Enum) {
+				return []*spec.Message{spec.M("Bad", spec.Msg("val", "Child").Map().Empty(spec.EmptyOmit)), child()}, nil
+			}},
+			Misuse{Rule: "timestamp_format_on_oneof_scalar_member", JSONRule: true, Offenders: []string{"Bad", "val"}, Build: func() ([]*spec.Message, []*spec.Enum) {
+				return []*spec.Message{inOneof(spec.F("val", "int64").TsF(spec.TsUnixMs))}, nil
+			}},
+			Misuse{Rule: "timestamp_format_on_repeated_int64", JSONRule: true, Offenders: []string{"Bad", "val"}, Build: func() ([]*spec.Message, []*spec.Enum) {
+				return []*spec.Message{spec.M("Bad", spec.F("val", "int64").Rep().TsF(spec.TsUnixSec))}, nil
+			}},
+			Misuse{Rule: "bytes_encoding_on_oneof_string_member", JSONRule: true, Offenders: []string{"Bad", "val"}, Build: func() ([]*spec.Message, []*spec.Enum) {
+				return []*spec.Message{inOneof(spec.F("val", "string").BEnc(spec.BytesHex))}, nil
+			}},
+			Misuse{Rule: "bytes_encoding_on_repeated_string", JSONRule: true, Offenders: []string{"Bad", "val"}, Build: func() ([]*spec.Message, []*spec.Enum) {
+				return []*spec.Message{spec.M("Bad", spec.F("val", "string").Rep().BEnc(spec.BytesB64URL))}, nil
+			}},
+			Misuse{Rule: "flatten_on_optional_scalar", JSONRule: true, Offenders: []string{"Bad", "val"}, Build: func() ([]*spec.Message, []*spec.Enum) {
+				return []*spec.Message{spec.M("Bad", spec.F("val", "string").Opt().Flat())}, nil
+			}},
+		)
 		return out
 	}
 }
